@@ -519,10 +519,15 @@ func (ev *astEnv) fieldOf(v Value, t types.Type, idx int) (Value, types.Type) {
 	e := ev.e
 	if p, ok := t.Underlying().(*types.Pointer); ok {
 		pv, ok := v.(*PtrV)
+		st := p.Elem().Underlying().(*types.Struct)
+		if ok && pv.Ref == nil && pv.Nil != nil && pv.Nil.Const && pv.Nil.B {
+			// a field of the nil pointer (e.g. `result0.height` on an error path, guarded by an implication whose
+			// antecedent is false there): an arbitrary value; nothing can be proved from or about it
+			return e.freshValS(ev.s, st.Field(idx).Type(), "nilfield"), st.Field(idx).Type()
+		}
 		if !ok || pv.Ref == nil {
 			panic(unsupported("field through unknown pointer in contract"))
 		}
-		st := p.Elem().Underlying().(*types.Struct)
 		return e.load(ev.s, pv.Ref.extend(PElem{Field: idx})), st.Field(idx).Type()
 	}
 	st := t.Underlying().(*types.Struct)
